@@ -44,7 +44,8 @@ def prescription():
         surfs=st.lists(surface_strategy(), min_size=1, max_size=28),
         img_curv=st.sampled_from([0.0, 0.0, 0.0, -0.01]),
         fmt=st.sampled_from(['g', 'E', 'zemax']), enc=st.sampled_from(['utf-8', 'utf-16']),
-        gcat=st.sampled_from([None, ['SCHOTT'], ['SCHOTT', 'OHARA', 'HOYA']])))
+        gcat=st.sampled_from([None, ['SCHOTT'], ['SCHOTT', 'OHARA', 'HOYA']]),
+        head=st.sampled_from(['vers', 'vers', 'mode_first', 'ap_first'])))
 
 
 def quiet(fn, *a, **k):
@@ -114,7 +115,7 @@ class C20(Check):
             ftype = 0
         nw = len(case['wls'])
         return dict(mode=case['mode'], ap=ap, ftype=ftype, tele=False, fields_y=case['fields_y'], wls=case['wls'],
-                    prim=1 + case['prim'] % nw, surfs=surfs, fmt=case['fmt'], gcat=case['gcat'])
+                    prim=1 + case['prim'] % nw, surfs=surfs, fmt=case['fmt'], gcat=case['gcat'], head=case.get('head', 'vers'))
 
     def check(self, case, out):
         from optiland.fileio import load_zemax_file
@@ -125,7 +126,7 @@ class C20(Check):
         path = os.path.join(HERE, '.cache', 'c20_%d.zmx' % os.getpid())
         with open(path, 'wb') as fh:
             fh.write(data)
-        out.cls('enc_' + case['enc'], 'fmt_' + case['fmt'], 'ap_' + p['ap'][0], 'ftype_%d' % p['ftype'],
+        out.cls('enc_' + case['enc'], 'fmt_' + case['fmt'], 'head_' + case.get('head', 'vers'), 'ap_' + p['ap'][0], 'ftype_%d' % p['ftype'],
                 'mode_' + p['mode'])
         try:
             if p['mode'] != 'SEQ':
